@@ -227,7 +227,7 @@ Strict(st, o, loose) ==
              IN IF o.op = "Subscribe" THEN {Out(OkRes, st2, Quiet(st2), <<>>)}
                 ELSE {Out(ResOf("ok", NoView, X, FALSE, 0, 0), st2, Quiet(st2), <<>>) : X \in QuerySets(st, o, loose)}
     [] o.op = "CancelSub" ->
-        IF ~st.subs[o.slot].active THEN {}
+        IF ~st.subs[o.slot].active THEN {Out(ErrRes("other"), st, Quiet(st), <<>>)}   \* nothing to cancel (its creation failed)
         ELSE LET S == st.subs[o.slot]
                  st2 == [st EXCEPT !.subs[o.slot].active = FALSE, !.subs[o.slot].acc = <<>>]
                  f == [Quiet(st2) EXCEPT ![o.slot].items = S.acc]
@@ -238,7 +238,7 @@ Strict(st, o, loose) ==
                  st2 == [st EXCEPT !.hooks[o.slot] = H, !.horder = Append(@, o.slot)]
              IN {Out(OkRes, st2, Quiet(st2), <<>>)}
     [] o.op = "CancelHook" ->
-        IF ~st.hooks[o.slot].active THEN {}
+        IF ~st.hooks[o.slot].active THEN {Out(ErrRes("other"), st, Quiet(st), <<>>)}
         ELSE LET st2 == [st EXCEPT !.hooks[o.slot].active = FALSE] IN {Out(OkRes, st2, Quiet(st2), <<>>)}
     [] OTHER -> {}
 
@@ -257,7 +257,7 @@ ResMatch(r, obs) == /\ r.err = obs.err /\ r.rec = obs.rec /\ r.flag = obs.flag /
                     /\ Range(obs.items) = r.items /\ Len(obs.items) = Cardinality(r.items)
 \* API feed items: a delete message carries the key only; alias = the backend hands out its live record objects
 \* (hashmap), so that a reply marshalled later by the API goroutine shows a later state of the same key: only the
-\* keys are compared there
+\* keys are compared there (the same holds for a cached interface, which modifies its cached object in place)
 LazyProj(v, alias) == IF alias THEN [NoView EXCEPT !.k = v.k]
                       ELSE IF v.del THEN [NoView EXCEPT !.k = v.k, !.del = TRUE] ELSE v
 FeedMatch(x, s, obs, alias) ==
